@@ -434,8 +434,50 @@ def add_zoo(first, pr_, want_cpp, pkg=None):
             first.steps.append(("steerzoo%d" % zk_, zw_, zr_.chance(0.5)))
 
 
+WATCH_FILES = {"C01": ("binary.py", "binary/protocols.", "Serializer.m"), "C02": ("ndjson.py", "ndjson/protocols."), "C03": ("binary.py", "ndjson.py", "binary/protocols.", "ndjson/protocols.", "types.")}
+
+
+def watch_task(task, prop):
+    """Writers and readers generated by a long-lived `yardl generate --watch` process: after the model files were edited, the
+    serializer code on disk must be what a one-shot generation of the final model writes - code that still encodes an earlier
+    definition of a type writes streams that do not decode to the values written.  Runs C20's workloads in the simulated OS; only
+    differences in files that hold serializers / converters are reported here (anything else is C20's business)."""
+    import importlib
+    W = importlib.import_module("checks.C20")
+    from toolworld import tw
+    seed, i = task["seed"], task["i"]
+    sim = tw.Sim(os.environ.get("VERIF_REPO", "/repo"))
+    stats, viols, cases = {"watch_sessions": 0}, [], []
+    for j in range(12 if task["tier"] == "quick" else 40):
+        # (with a bias towards edits after which a type keeps its name and changes its encoding)
+        doc_ = W.make_case(M.derive(seed, prop + "watch", i).next() % (1 << 40), i * 1000 + j, kinds_bias=["widen_alias", "widen_enum_base", "widen_field", "widen_alias"] * 4, steer_named=True)
+        if doc_["case"].get("ends_invalid"):
+            continue
+        viol, st = W.execute(sim, doc_)
+        stats["watch_sessions"] += 1
+        stats["runs"] = stats.get("runs", 0) + st.get("runs", 1)
+        if viol is not None and viol.get("class") == "not_converged":
+            hit = [q for q in st.get("diff_paths", []) if any(x in q for x in WATCH_FILES[prop])]
+            if hit:
+                viols.append(({"class": "serializers_generated_in_watch_mode_differ_from_one_shot", "nodes": "tool", "pipeline": "watch", "what": hit[0].rsplit("/", 1)[-1]},
+                              dict(doc_, kind="watch", first=hit[0])))
+                break
+        cases.append(([prop + "w", i, j], True))
+    return {"stats": stats, "violations": viols, "cases": cases, "samples": []}
+
+
+def replay_watch(doc):
+    import importlib
+    W = importlib.import_module("checks.C20")
+    from toolworld import tw
+    viol, _ = W.execute(tw.Sim(os.environ.get("VERIF_REPO", "/repo")), doc)
+    return (viol is not None and viol.get("class") == "not_converged"), str(viol)
+
+
 def model_task(task, ybin, root, prop):
     seed, i, quick = task["seed"], task["i"], task["tier"] == "quick"
+    if i % 16 == 9:
+        return watch_task(task, prop)
     rng = M.derive(seed, prop, i)
     needs_cpp = prop == "C03"
     want_cpp = needs_cpp or ((i % 5 == 0) if quick else (i % 2 == 0))
